@@ -38,7 +38,8 @@ fn worker_main(cfg: &Cfg, mut w: Worker) -> ! {
             corpus::for_each_grammar(&slices, &mut w, &mut stats, |p, st| c01::check_grammar(p, &known, st));
         }
         "C04" => {
-            let slices = corpus::small(cfg.quick());
+            // the corpus C01 uses, one scale step down (distinct trees are checked once)
+            let slices = corpus::standard(cfg.quick(), scale - 1);
             let mut seen = std::collections::HashSet::new();
             corpus::for_each_grammar(&slices, &mut w, &mut stats, |p, st| c04::check_grammar(p, &known, st, &mut seen));
             stats.add("distinct_parse_trees", seen.len() as u64);
